@@ -506,6 +506,52 @@ def check_registration(ctx, thorough_only=False):
                '%d loops push into c_repeat_rules, cleared first: %s' % (n, cleared))
 
 
+def check_declaration_order(ctx):
+    """rules are applied in declaration order: create_rule appends to repeat_rules, _create_vectors copies that list in order into the
+    C vector, and the interface walks the vector from index 0 upwards"""
+    prog = ctx.prog
+    dc, f = prog.resolve_method('Model', '_create_vectors')
+    problems = []
+    loops = [s_ for s_ in f.body if isinstance(s_, ast.For) and any(isinstance(c, ast.Call) and src(c.func) == 'self.c_repeat_rules.push_back' for c in ast.walk(s_))]
+    if len(loops) != 1:
+        problems.append('%d loops fill c_repeat_rules' % len(loops))
+    else:
+        lp = loops[0]
+        it = src(lp.iter).replace(' ', '')
+        tv = src(lp.target)
+        pushed = [c for c in ast.walk(lp) if isinstance(c, ast.Call) and src(c.func) == 'self.c_repeat_rules.push_back'][0]
+        arg = src(util.strip_cast(pushed.args[0])).replace(' ', '') if pushed.args else None
+        if it == 'self.repeat_rules' and arg == tv:
+            pass
+        elif it in ('range(len(self.repeat_rules))',) and arg == 'self.repeat_rules[%s]' % tv:
+            pass
+        else:
+            problems.append('the rule vector is filled from `%s` (pushing %s): not the declaration list in its own order' % (src(lp.iter), arg))
+        if any(isinstance(x, (ast.If, ast.Continue, ast.Break)) for x in ast.walk(lp)):
+            problems.append('some rules are skipped while the vector is filled')
+    g = ctx.fn('types:Model.create_rule')
+    apps = [c for c in ast.walk(g) if isinstance(c, ast.Call) and src(c.func) in ('self.repeat_rules.append', 'self.repeat_rules.insert')]
+    if len(apps) != 1 or src(apps[0].func) != 'self.repeat_rules.append':
+        problems.append('create_rule registers the rule object by %s' % [src(c.func) for c in apps])
+    ctx.ob('R9.6-declaration-order', 'Model', not problems, ctx.loc(prog.classes[dc].module, f),
+           'rule objects are appended on declaration and copied into the C vector in that order, none skipped', '; '.join(problems))
+    for cls, meths in (('ModelCSimInterface', ('apply_repeated_rules', 'apply_repeated_volume_rules')),):
+        for m_ in meths:
+            dc2, h = prog.resolve_method(cls, m_)
+            if h is None:
+                raise AnalysisError('anchor vanished: %s.%s' % (cls, m_))
+            lps = [s_ for s_ in ast.walk(h) if isinstance(s_, ast.For)]
+            ok = len(lps) == 1 and src(lps[0].iter).replace(' ', '') in ('range(self.num_rules)', 'range(self.c_repeat_rules.size())',
+                                                                       'range(self.c_repeat_rules[0].size())', 'range(0,self.num_rules)')
+            if ok:
+                tv = src(lps[0].target)
+                idx = [n_ for n_ in ast.walk(lps[0]) if isinstance(n_, ast.Subscript) and 'c_repeat_rules' in src(n_.value)
+                       and src(n_.slice).replace(' ', '') != '0']
+                ok = bool(idx) and all(src(n_.slice).replace(' ', '') == tv for n_ in idx)
+            ctx.ob('R9.6-declaration-order', '%s.%s' % (cls, m_), ok, ctx.loc(prog.classes[dc2].module, h),
+                   'the interface applies the rules by walking the vector from the first to the last index', '')
+
+
 # ------------------------------------------------------------------------------ R9.7
 def check_dt(ctx):
     f = ctx.fn('simulator:py_simulate_model')
@@ -539,6 +585,7 @@ def check(ctx):
     check_iface_apply(ctx)
     check_deterministic(ctx)
     check_registration(ctx)
+    check_declaration_order(ctx)
     check_dt(ctx)
     # "reaction rates are computed from the rule-updated species and parameters": every iteration re-evaluates the propensities from the
     # current (rule-updated) state before the next event is drawn, with nothing written in between (C05 R5.2-order / R5.2-choice) - re-emitted
